@@ -17,7 +17,7 @@ func main() {
 	run.SetRule("one case = one history (TSS group by real DKG, 100+ blocks) of nonce submissions/resets/over-limit submissions, direct signing " +
 		"requests, retries after time-outs, with a PRNG-chosen subset of member assignments failing AFTER the nonces were dequeued (failpoint H1, " +
 		"error or panic); distinct = distinct (signing, attempt, committee, nonce) assignments observed")
-	run.Assume("nonce pairs are unique by construction (255 random bits)", "signing sources exercised here: direct requests, end-block retries and oracle results (TSS encoder); tunnel packets and group transitions run the same monitor inside C08 and C18")
+	run.Assume("nonce pairs are unique by construction (255 random bits)", "signing sources exercised here: direct requests, end-block retries, oracle results (TSS encoder) and tunnel packets; group transitions run the same monitor inside C18")
 	var mon []*tssworld.DEMonitor
 	_ = mon
 	n := run.N(128, 1500)
@@ -54,7 +54,19 @@ func main() {
 		om := tssworld.NewOracleSource(h, nil)
 		return []tssworld.Monitor{om, tssworld.NewDEMonitor()}
 	}, nil)
-	for _, c := range []string{"de-assigned", "de-over-limit-rejected", "de-queue-exactly-full", "de-reset", "failpoint-fired", "failpoint-panicked", "de-submit-while-queue-above-lowered-limit",
+	// third signing source: tunnel packets, created by the tunnel end blocker under its own cache context + recover
+	tssworld.RunCases(run, "c05u", run.N(32, 600), func(r *sim.Rng, i int) tssworld.Cfg {
+		nm := r.Range(2, 5)
+		return tssworld.Cfg{
+			NMembers: nm, Threshold: uint64(r.Range(1, nm)), MaxDESize: uint64(sim.Pick(r, []int{2, 3, 5})),
+			SigningPeriod: uint64(r.Range(1, 3)), MaxAttempts: uint64(r.Range(1, 3)), FeePerSigner: sdk.NewCoins(sdk.NewInt64Coin("uband", 2)),
+			Blocks: 90, PSubmit: sim.Pick(r, []int{50, 90}), DEOps: true, ReqPerBlockPct: 15, ExtraUsers: 1,
+			FailpointPct: sim.Pick(r, []int{10, 25, 40}), FailpointMode: 1, GenesisExtra: tssworld.TunnelSourceGenesis,
+		}
+	}, func(h *tssworld.Hist) []tssworld.Monitor {
+		return []tssworld.Monitor{tssworld.NewTunnelSource(h, nil), tssworld.NewDEMonitor()}
+	}, nil)
+	for _, c := range []string{"de-assigned", "tx:tunnel:activate:ok", "de-over-limit-rejected", "de-queue-exactly-full", "de-reset", "failpoint-fired", "failpoint-panicked", "de-submit-while-queue-above-lowered-limit",
 		"oracle-tss-result-signings-paid", "oracle-tss-result-signing-failed-other"} {
 		run.Require(c, 1)
 	}
